@@ -41,11 +41,19 @@ Proof.
   rewrite enc_snoc, <- H, <- !app_assoc. reflexivity.
 Qed.
 Lemma bal_send_msg m s : bal s -> bal (send_msg m s). Proof. apply bal_send_frame. Qed.
+Lemma bal_flush_fold (l : list (N * bytes)) : forall s0, bal s0 ->
+  bal (fold_left (fun s (it : N * bytes) =>
+               emit (ESig SigSendFinished [PStrNum (fst it); PInt 0; PStr RES_TERMINATING])
+                    (s <| tx_map := dict_del (fst it) (tx_map s) |>)) l s0).
+Proof. induction l as [|it l IH]; intros s0 H; cbn [fold_left]; [exact H|]. apply IH. exact H. Qed.
+Lemma bal_flush_pend_start s : bal s -> bal (flush_pend_start s).
+Proof. intros H. unfold flush_pend_start. apply bal_flush_fold. exact H. Qed.
 Lemma bal_do_close s : bal s -> bal (do_close s).
 Proof.
   intros H. unfold do_close. cbv zeta.
   match goal with |- context [if ?c then _ else _] => destruct c end; [exact H|].
-  apply bal_emit. match goal with |- context [if ?c then _ else _] => destruct c end; exact H.
+  apply bal_emit. bal_norm.
+  match goal with |- context [if ?c then _ else _] => destruct c end; bal_norm; apply bal_flush_pend_start; exact H.
 Qed.
 Lemma bal_pq_trigger s : bal s -> bal (pq_trigger s).
 Proof. unfold pq_trigger. destruct (pq_set s); exact (fun H => H). Qed.
@@ -87,14 +95,6 @@ Proof.
   destruct (sessinit_peer s) as [peer|]; [|exact H].
   destruct (negb (ascii (si_nodeid peer))); exact H.
 Qed.
-Lemma bal_flush_fold (l : list (N * bytes)) : forall s0, bal s0 ->
-  bal (fold_left (fun s (it : N * bytes) =>
-               emit (ESig SigSendFinished [PStrNum (fst it); PInt 0; PStr RES_TERMINATING])
-                    (s <| tx_map := dict_del (fst it) (tx_map s) |>)) l s0).
-Proof. induction l as [|it l IH]; intros s0 H; cbn [fold_left]; [exact H|]. apply IH. exact H. Qed.
-Lemma bal_flush_pend_start s : bal s -> bal (flush_pend_start s).
-Proof. intros H. unfold flush_pend_start. apply bal_flush_fold. exact H. Qed.
-
 Lemma tv_sbd n y : tv (send_buffer_decreased n y) = tv y.
 Proof. unfold send_buffer_decreased, pq_trigger. destruct (_ <? _); [destruct (pq_set y)|]; reflexivity. Qed.
 
